@@ -20,8 +20,9 @@ pub enum Policy {
     TrapSeeker,
     RabbitRunner,
     PassEarly,
+    Rotator,
 }
-pub const POLICIES: [Policy; 7] = [Policy::Uniform, Policy::PassHappy, Policy::Shuffler, Policy::Pusher, Policy::TrapSeeker, Policy::RabbitRunner, Policy::PassEarly];
+pub const POLICIES: [Policy; 8] = [Policy::Uniform, Policy::PassHappy, Policy::Shuffler, Policy::Pusher, Policy::TrapSeeker, Policy::RabbitRunner, Policy::PassEarly, Policy::Rotator];
 
 #[derive(Clone, Copy, PartialEq, Eq, Debug)]
 pub enum SetupPolicy {
@@ -35,7 +36,7 @@ pub enum SetupPolicy {
 #[derive(Clone, Debug)]
 pub struct Mix {
     pub families: [u32; 10],
-    pub policies: [u32; 7],
+    pub policies: [u32; 8],
     pub caps: &'static [usize],
     pub fan: &'static [f64],
     pub fan2: &'static [f64],
@@ -192,6 +193,35 @@ impl RandomSource {
                     pick_from(&c, r2)
                 } else {
                     uniform
+                }
+            }
+            Policy::Rotator => {
+                // turns whose steps permute the pieces: move into a square that was occupied at the
+                // start of this turn and is empty now; on the first step move a piece that has company
+                let start = w.rec.turn_start_board();
+                let c: Vec<usize> = match (w.m.steps_made(), start) {
+                    (0, _) | (_, None) => (0..n)
+                        .filter(|i| matches!(acts[*i], Some(Act::Step(q, d)) if q.neighbours().filter(|x| w.m.board[x.0 as usize].is_some()).count() >= 2
+                            && q.step(d).map_or(false, |t| t.neighbours().filter(|x| w.m.board[x.0 as usize].is_some()).count() >= 2)))
+                        .collect(),
+                    (_, Some(sb)) => (0..n)
+                        .filter(|i| matches!(acts[*i], Some(Act::Step(q, d)) if q.step(d).map_or(false, |t| sb[t.0 as usize].is_some() && w.m.board[t.0 as usize].is_none())))
+                        .collect(),
+                };
+                if !c.is_empty() && coin(r1, 0.9) {
+                    pick_from(&c, r2)
+                } else if w.m.steps_made() >= 1 && !c.is_empty() {
+                    uniform
+                } else {
+                    // keep the cluster together: prefer steps whose target has neighbours
+                    let c2: Vec<usize> = (0..n)
+                        .filter(|i| matches!(acts[*i], Some(Act::Step(q, d)) if q.step(d).map_or(false, |t| t.neighbours().filter(|x| *x != q && w.m.board[x.0 as usize].is_some()).count() >= 1)))
+                        .collect();
+                    if !c2.is_empty() && coin(r1, 0.8) {
+                        pick_from(&c2, r2)
+                    } else {
+                        uniform
+                    }
                 }
             }
             Policy::RabbitRunner => {
